@@ -18,6 +18,7 @@ DATA = lambda pfx, i: {"uid": "%s%d" % (pfx, i), "extra": [1, {"n": None}]}  # n
 
 def install():
     C.stub(M, "int", S.sym_int)
+    C.shadow_module(UN)
 
 
 def h_unov(x, n1, n2, twin=False):
@@ -64,6 +65,7 @@ def harnesses(tier):
         spec = [(1, 1, 60), (2, 1, 60), (1, 2, 60), (2, 2, 300)]
     else:
         spec = [(1, 1, 60), (2, 1, 60), (1, 2, 60), (2, 2, 300), (3, 2, 900), (2, 3, 900), (3, 3, 3600)]
+    hs.append((Harness(PROP, "union_no_overlap-1+1-float-semantics", C.with_floats(h_unov), dict(n1=1, n2=1), "union_no_overlap 1+1 with IEEE double semantics for any float arithmetic, durations < 2^17 ms in binary range pieces", split_depth=7, fresh_solver=True), 600))
     for n1, n2, budget in spec:
         hs.append((Harness(PROP, "union_no_overlap-%d+%d" % (n1, n2), h_unov, dict(n1=n1, n2=n2), "union_no_overlap on sorted non-overlapping lists of %d and %d events" % (n1, n2), split_depth=7, cross_solver=2), budget))
     return hs
